@@ -1233,9 +1233,9 @@ func (m *membershipAllower) membershipAllowedSelf() error { // nolint: gocyclo
 			return nil
 		}
 
-		// A user that is not in the room is allowed to join if the room
+		// Any user that is not banned is allowed to join if the room
 		// join rules are "public".
-		if m.oldMember.Membership == spec.Leave && m.joinRule.JoinRule == spec.Public {
+		if m.joinRule.JoinRule == spec.Public {
 			return nil
 		}
 
